@@ -705,6 +705,62 @@ func vRunLifeServer(c *vCase) {
 		c.Cov("after_stop_checks", 1)
 		c.Cov("server_histories", 1)
 	}
+	if !c.Violated() {
+		// the TDM source through its RPC configuration: a request naming a card that does not exist is refused; a valid one
+		// follows, and the source must then start, deliver blocks and stop (what was refused earlier is forgotten)
+		rows := 2 + r.Intn(3)
+		gpath := filepath.Join(c.Dir, "cringeGlobals.json")
+		os.WriteFile(gpath, []byte(fmt.Sprintf(`{"SETT": 10, "seqln": %d, "lsync": 2000, "testpattern": 0, "propagationdelay": 1, "NSAMP": 1, "carddelay": 1, "XPT": 0}`, rows)), 0o644)
+		old := cringeGlobalsPath
+		cringeGlobalsPath = gpath
+		defer func() { cringeGlobalsPath = old }()
+		ls := sc.lancero
+		card := vEndlessCard(rows, 2, uint64(r.Int63()))
+		card.backlog = func() int { return len(ls.buffersChan) }
+		ls.devices = map[int]*LanceroDevice{0: {devnum: 0, nrows: rows, lsync: 2000, clockMHz: 125, card: card}}
+		verifInstall(&verifHandlers{Duration: func(name string, d time.Duration) time.Duration {
+			if name == "lancero.readPeriod" {
+				return 5 * time.Millisecond
+			}
+			return d
+		}})
+		defer verifInstall(nil)
+		bad := &LanceroSourceConfig{ActiveCards: []int{vPick(r, 3, 1, 7)}, FirstRow: 1}
+		if err, ret := call(fmt.Sprintf("ConfigureLanceroSource(cards %v)", bad.ActiveCards), func() error { return sc.ConfigureLanceroSource(bad, &okay) }); !ret {
+			return
+		} else if err == nil {
+			fail("c10:configure-accepted", "a Lancero configuration naming card %v, which does not exist, was accepted", bad.ActiveCards)
+			return
+		}
+		good := &LanceroSourceConfig{ActiveCards: []int{0}, FirstRow: 1}
+		if err, ret := call("ConfigureLanceroSource(cards [0])", func() error { return sc.ConfigureLanceroSource(good, &okay) }); !ret {
+			return
+		} else if err != nil {
+			fail("c10:configure-failed", "a valid Lancero configuration was refused after an invalid one: %v", err)
+			return
+		}
+		nl := "LANCEROSOURCE"
+		err, ret := call("Start(LANCEROSOURCE)", func() error { return sc.Start(&nl, &okay) })
+		if !ret {
+			return
+		}
+		if err != nil {
+			fail("c10:start-refused-when-inactive", "Start(LANCEROSOURCE) was refused although no source runs and the last configuration request was accepted: %v", err)
+			return
+		}
+		time.Sleep(time.Duration(10+r.Intn(30)) * time.Millisecond)
+		if err, ret := call("Stop()", func() error { return sc.Stop(&str, &okay) }); !ret {
+			return
+		} else if err != nil {
+			fail("c10:stop-refused-while-running", "Stop while the Lancero source was running was refused: %v", err)
+			return
+		}
+		if st := ls.GetState(); st != Inactive {
+			fail("c10:not-inactive-after-stop", "Stop has returned but the Lancero source is in state %v", st)
+			return
+		}
+		c.Cov("server_lancero_reconfigurations", 1)
+	}
 	c.Nontrivial()
 }
 
@@ -1061,11 +1117,11 @@ func init() {
 		Setup: vLifeSetup,
 		Run:   vRunLife,
 		Meta: vMeta{Level: "exploration",
-			Rule: "case = (source, scenario, ordering constraint): Triangle, SimPulse, ErroringSource, a self-ending source (error block / closed channel), Abaco with scripted producers and over loopback UDP, Lancero with a scripted card, Roach over loopback UDP; scenarios: 2-5 start/stop cycles on one object (with writing in some), 2-4 concurrent Stop callers, Start while active, 1-2 failed Starts (hardware silent, card refusing in sampling or in StartRun) followed by a Start with data flowing, Stop racing or following self-termination (with and without writing active), a request pending while stopping; each ends with a restart of the same object. A verifPoint handler holds one goroutine at point A until point B has been passed (bounded, with fall-through) for pairs from {core.exit.err, core.exit.closed, deactivate.enter} x {stop.enter, stop.signalled, stop.waited} in both directions. Checked: refused second Start, Active + blocks after Start, every Stop returns (wait-state analysis), then Inactive, goroutine census clean, writing inactive, no file open below the output directory, restart delivers blocks; after a failed Start: Inactive, census clean, later Start succeeds; non-trivial = history completed; additions: Stop while the core loop is held busy, Start while a Stop is under way, runs paused at the end, restarts with other channel counts, sources ending themselves on a time-out (Roach 2 s keep-alive; Abaco over UDP with the program's own periods); one case in 20 is a history through the RPC layer's bookkeeping (in-package SourceControl, Triangle and SimPulse): while one source runs, Starts of the other, of the same and of an unknown source must be refused, and the following Stop must leave the source that was running Inactive with its core loop gone",
+			Rule: "case = (source, scenario, ordering constraint): Triangle, SimPulse, ErroringSource, a self-ending source (error block / closed channel), Abaco with scripted producers and over loopback UDP, Lancero with a scripted card, Roach over loopback UDP; scenarios: 2-5 start/stop cycles on one object (with writing in some), 2-4 concurrent Stop callers, Start while active, 1-2 failed Starts (hardware silent, card refusing in sampling or in StartRun) followed by a Start with data flowing, Stop racing or following self-termination (with and without writing active), a request pending while stopping; each ends with a restart of the same object. A verifPoint handler holds one goroutine at point A until point B has been passed (bounded, with fall-through) for pairs from {core.exit.err, core.exit.closed, deactivate.enter} x {stop.enter, stop.signalled, stop.waited} in both directions. Checked: refused second Start, Active + blocks after Start, every Stop returns (wait-state analysis), then Inactive, goroutine census clean, writing inactive, no file open below the output directory, restart delivers blocks; after a failed Start: Inactive, census clean, later Start succeeds; non-trivial = history completed; additions: Stop while the core loop is held busy, Start while a Stop is under way, runs paused at the end, restarts with other channel counts, sources ending themselves on a time-out (Roach 2 s keep-alive; Abaco over UDP with the program's own periods); one case in 20 is a history through the RPC layer's bookkeeping (in-package SourceControl, Triangle and SimPulse): while one source runs, Starts of the other, of the same and of an unknown source must be refused, and the following Stop must leave the source that was running Inactive with its core loop gone; the same histories end with the TDM source configured through its RPC request: refused (a card that does not exist), then valid, then Start/Stop",
 			Assumptions: []string{"Stop during Start at the DataSource level is not generated (the RPC layer cannot produce it and the code documents it as unsupported)", "a worker goroutine counts as leaked if it is still there with the same frames 3 s and again 4.5 s after the last Stop returned",
 				"sources whose Stop path discards their devices (Abaco, Roach) are configured again before every Start, as the RPC clients do"},
 			Guards: map[string]map[string]int{
-				"quick":    {"starts_delivering_blocks": 150, "stops_returned": 200, "after_stop_checks": 150, "concurrent_stop_groups": 15, "failed_starts": 8, "start_after_failed_start": 6, "stops_racing_self_termination": 8, "stops_after_self_termination": 8, "writing_started": 15, "final_restarts": 70, "device_release_checks": 30, "distinct:ordering": 10, "server_histories": 8, "server_starts_refused_while_running": 8},
+				"quick":    {"starts_delivering_blocks": 150, "stops_returned": 200, "after_stop_checks": 150, "concurrent_stop_groups": 15, "failed_starts": 8, "start_after_failed_start": 6, "stops_racing_self_termination": 8, "stops_after_self_termination": 8, "writing_started": 15, "final_restarts": 70, "device_release_checks": 30, "distinct:ordering": 10, "server_histories": 8, "server_starts_refused_while_running": 8, "server_lancero_reconfigurations": 4},
 				"thorough": {"starts_delivering_blocks": 1500, "failed_starts": 150, "distinct:ordering": 20},
 			}},
 	})
